@@ -3,9 +3,9 @@
 (* in-order delivery, io.EOF exactly once everything has been delivered, source error passed through.   *)
 EXTENDS CompressingReader, TLC, Json
 
-CONSTANTS ReadSizes, MaxReads
+CONSTANTS ReadSizes, MaxReads, MaxLives
 
-VARIABLES reads, plen
+VARIABLES reads, plen, lives
 
 Layouts == { << <<7>>, <<4, 9>>, <<4, 3>>, <<4>> >>,              \* header, two blocks, trailer
              << <<7>>, <<4>> >>,                                  \* empty input
@@ -13,15 +13,19 @@ Layouts == { << <<7>>, <<4, 9>>, <<4, 3>>, <<4>> >>,              \* header, two
              << <<7>>, <<4, 9>>, <<0 - 1>> >>,                    \* source fails after one block
              << <<7>>, <<0 - 1>> >> }
 
-Init == \E g \in Layouts : InitWith(g) /\ reads = <<>> /\ plen = 0
+Init == \E g \in Layouts : InitWith(g) /\ reads = <<>> /\ plen = 0 /\ lives = 1
 
-Next == /\ Len(reads) < MaxReads
-        /\ \E p \in ReadSizes :
-              /\ Read(p)
-              /\ plen' = p
-              /\ reads' = Append(reads, p)
+Next == \/ /\ Len(reads) < MaxReads
+           /\ \E p \in ReadSizes :
+                 /\ Read(p)
+                 /\ plen' = p
+                 /\ reads' = Append(reads, p)
+           /\ UNCHANGED lives
+        \/ /\ lives < MaxLives                 \* Reset at any point of a stream, then a new stream
+           /\ \E g \in Layouts : Reset(g)
+           /\ reads' = <<>> /\ plen' = 0 /\ lives' = lives + 1
 
-Spec == Init /\ [][Next]_<<cvars, reads, plen>>
+Spec == Init /\ [][Next]_<<cvars, reads, plen, lives>>
 
 AtMostLenP == last.n <= plen \/ reads = <<>>
 Progress == (reads # <<>> /\ plen > 0 /\ last.err = "none") => last.n > 0
